@@ -110,7 +110,9 @@ Classes(c) == UNION {ValueClasses(c.args[i][3]) : i \in DOMAIN c.args} \cup (IF 
 Coarse(x) == CASE x \in {"str-ascii-nonword", "str-bmp-nonascii"} -> "str-nonword"
                [] x \in {"str-escape", "str-escape-non-bmp"} -> "str-escape"
                [] OTHER -> x
-Feats(c) == {Coarse(x) : x \in Classes(c)}
+\* plain value classes carry no tag (a finding on plain values gets the bare signature)
+Plain == {"str-word", "str-empty", "int-nonneg", "var", "bool", "null"}
+Feats(c) == {Coarse(x) : x \in Classes(c)} \ Plain
 
 IsLinkedF(c) == c.f \in {"pets", "user"}
 SubSel(c) == IF c.f = "pets" THEN <<Scalar("nickname")>> ELSE <<Scalar("name")>>
